@@ -227,6 +227,30 @@ impl Gen {
         }
     }
 
+    /// Pairs of distinct label values whose printed text is the same (a canonical value and a
+    /// hand-built one): printers must still list both edges.
+    pub fn add_colliding_labels(&mut self) {
+        let sp = |t: &str| {
+            let mut a = [' '; 8];
+            for (i, c) in t.chars().enumerate() {
+                a[i] = c;
+            }
+            Label::Str(a)
+        };
+        let pairs = [
+            (Label::Greek('x'), sp("x")),
+            (Label::Alpha(1), sp("α1")),
+            (sp("ab"), sp("a b")),
+            (Label::Greek('ρ'), sp("ρ")),
+        ];
+        let (a, b) = pairs[self.rng.below(pairs.len())];
+        for l in [a, b] {
+            if !self.labels.contains(&l) {
+                self.labels.insert(0, l);
+            }
+        }
+    }
+
     pub fn label(&mut self) -> Label {
         *self.rng.pick(&self.labels)
     }
